@@ -459,6 +459,33 @@ def run(F, rep, tier):
         else:
             rep.ok(r8, key, "no filtering / de-duplication in %s" % meth.split("::")[-1])
 
+    # ---------------- R03.9: what the aggregating COLLECT policies aggregate are values of the matching rules (label propagation over MIR)
+    r9 = rep.rule("R03.9", "the values handed to the aggregate of COLLECT +, <, >, # derive from the matching rules (get_matching_rules / get_results), not from the table's rules directly")
+    import taint
+    for pol in ("Collect:Sum", "Collect:Min", "Collect:Max", "Collect:Count"):
+        meth = (dispatch.get(pol) or [None])[0]
+        key = "aggregate-source:%s" % pol
+        if meth not in F.bodies:
+            rep.undecided(r9, key, "evaluation method of %s not found" % pol)
+            continue
+        is_count = pol.endswith("Count")
+        tt = taint.Taint(F, is_source=lambda p: "matching-rules" if re.search(r"::(get_matching_rules\w*|get_results|get_result)$", p or "") and p.startswith(EDT) else None,
+                         is_sink=lambda p, is_count=is_count: ("aggregate", [0]) if re.search(r"^dmntk_feel_evaluator::(\w+::)*evaluate_(sum|min|max|mean|count)$", p or "") or
+                         (is_count and re.search(r"(::len|::count)$", p or "") and ("slice" in p or "vec::Vec" in p or "Iterator" in p)) else None,
+                         param_source=lambda n, i, meth=meth: "table" if n == meth and i == 1 else None,
+                         opaque=lambda p: bool(re.search(r"::(get_matching_rules\w*|get_results|get_result|evaluate_default_output_value)$", p or "")))
+        tt.analyse(meth)
+        labs = tt.sinks.get(("aggregate", 0), set())
+        if not tt.sink_sites.get("aggregate"):
+            rep.undecided(r9, key, "no aggregate call (evaluate_sum / min / max, or a length for #) found in %s" % meth.split("::")[-1])
+        elif "table" in labs:
+            rep.violation(r9, key, "%s aggregates values taken from the table itself (all rules), not only from the matching rules: the aggregate must range over the outputs of the matching rules"
+                          % meth.split("::")[-1], "%s:%s" % (FILE, F.hir[meth]["line"]) if meth in F.hir else FILE)
+        elif "matching-rules" in labs:
+            rep.ok(r9, key, "aggregates values of the matching rules")
+        else:
+            rep.undecided(r9, key, "the aggregated values of %s are not traced to the matching rules" % meth.split("::")[-1])
+
     # ---------------- R03.7: list results are lists; per-clause collections are accumulated, not overwritten
     r7 = rep.rule("R03.7", "list-valued results are lists on every path (also for a single match); collections gathered over the clauses of a table grow in their loop and are never overwritten there")
     gr = F.hir.get(EDT + "get_results")
